@@ -46,6 +46,27 @@ def gen(tier, rng):
             frs.append(frag(sl, rng.random() < 0.35))
         pol = "".join(rng.choice("BBBI") for _ in range(rng.randrange(0, 14)))
         cases.append("accum %s %s %d" % (",".join(frs), pol or "B", rng.choice([1, 2, 3, 5, 32, 40, 41])))
+    # content that looks like framing of its own: a slice that begins with the big-endian length (1..4 bytes) of what follows
+    # it, start-code-like bytes, a header byte with the forbidden bit - in one delivery and split
+    for _ in range(300 if tier == "quick" else 6000):
+        body = bytes(rng.choice([0x65, 0x41, 0x67, 0x00, 0x80, rng.randrange(256)]) for _ in range(rng.randrange(2, 40)))
+        w = rng.choice([1, 2, 3, 4, 4, 4])
+        n = len(body) + rng.choice([0, 0, 0, 1, -1])
+        pre = max(0, n).to_bytes(4, "big")[4 - w:]
+        whole = rng.choice([pre + body, b"\x00\x00\x01" + body, b"\x00\x00\x00\x01" + body, pre + body + pre])
+        k = rng.randrange(4)
+        if k == 0:
+            frs = [frag([whole], True)]
+        elif k == 1:
+            frs = [frag([whole], False), frag([], True)]
+        elif k == 2:
+            c = rng.randrange(1, len(whole))
+            frs = [frag([whole[:c], whole[c:]], True)]
+        else:
+            c = rng.randrange(1, len(whole))
+            frs = [frag([whole[:c]], False), frag([whole[c:]], True)]
+        frs.append(frag([bytes([0x68, 0xce])], True))
+        cases.append("accum %s %s %d" % (",".join(frs), rng.choice(["B", "BB", "BI", "IB"]), rng.choice([1, 3, 40])))
     # NALs around every power of two up to 16 MiB (quick) / 128 MiB (thorough), delivered in 2..4 fragments, some with an
     # Ignore: synthetic bytes made inside the harness, implementation only, judged by the history oracle below
     tops = [12, 16, 20, 24] if tier == "quick" else [12, 16, 17, 20, 22, 23, 24, 25, 26, 27]
